@@ -80,7 +80,9 @@ func applyFault(s *mainSession, a C10Attempt, serving map[endpoint]*endpointMode
 		var repl string
 		switch a.Fault {
 		case "badtype":
-			repl = fmt.Sprintf("      - type: quic\n        address: %s\n", yq(s.pt.addr(l.Host, l.Slot)))
+			// an unknown type, or a known one in a spelling the loader does not know ("tcp"/"udp" are lower case)
+			bad := []string{"quic", strings.ToUpper(l.Type), strings.ToUpper(l.Type[:1]) + l.Type[1:], l.Type + " ", "sctp"}[(a.Arg+a.Arg2)%5]
+			repl = fmt.Sprintf("      - type: %s\n        address: %s\n", yq(bad), yq(s.pt.addr(l.Host, l.Slot)))
 		case "hostname":
 			repl = fmt.Sprintf("      - type: %s\n        address: %s\n", l.Type, yq(fmt.Sprintf("localhost:%d", s.pt.ports[l.Slot])))
 		case "duplicate":
